@@ -281,7 +281,7 @@ def run(ctx, res):
             for c in range(w):
                 mem.append((r[c * 4 + 3] & 3) << 6 | (r[c * 4] & 3) << 4 | (r[c * 4 + 1] & 3) << 2 | (r[c * 4 + 2] & 3))
         reg = U.regions_of(g)
-        stored = bytes(p8png.get_bytes_from_code(b''.join(g.lua.to_lines())))
+        stored = bytes(p8png.get_bytes_from_code(b''.join(g.lua.to_lines()), g.version))
         want = reg['gfx'] + reg['map'] + reg['gff'] + reg['music'] + reg['sfx'] + stored + bytes(0x3d00 - len(stored)) + bytes([g.version])
         res.evaluations += 1
         res.count('png-writer:' + ('default-label', 'label-from-earlier-cart', 'label-from-earlier-cart')[how if prev is not None else 0])
